@@ -33,7 +33,8 @@ RULE = ("Boolean structure (n-ary and/or, not, implies, iff, Boolean ite in both
         "theory atoms of every sort (Int/Real/BV/String relations, equalities, Boolean array selects, predicates and "
         "functions with Boolean arguments, theory ite with Boolean conditions), nested and shadowing quantifiers over "
         "Bool/BV2/Int; purely Boolean binders for the two QE procedures; sums of products / differences for "
-        "TimesDistributor; top-level equality chains (symbol-symbol, symbol-constant, conflicting constants, nested "
+        "TimesDistributor (including squares, repeated and shared factors); binders whose body occurs again outside the "
+        "binder (prenex); Boolean blocks of 3-4 variables with a single witness / counterexample (QE); top-level equality chains (symbol-symbol, symbol-constant, conflicting constants, nested "
         "conjunctions) for propagate_toplevel.  A case is non-trivial when the procedure's result differs from its "
         "input; distinct = distinct (procedure, input wire encoding)")
 ASSUMPTIONS = [
@@ -331,6 +332,88 @@ class Gen10:
         return self.pick([m.And, m.Or, m.Implies])(rel(), m.Not(rel())) if r.random() < 0.7 else \
             m.ForAll([self.x], m.Or(rel(), self.bool_leaf([])))
 
+    def times_repeated(self):
+        """products with a sum among the factors and the *same node* twice as a factor (squares, shared sub-DAGs)"""
+        m, r = self.m, self.rng
+        ty = INT if r.random() < 0.6 else REAL
+        syms = self.u.syms[ty]
+        c = lambda k: m.Int(k) if ty.is_int_type() else m.Real(k)
+        sm = m.Plus([self.arith(ty, 1) for _ in range(r.choice([2, 2, 3]))])
+        sm2 = m.Plus(self.pick(syms), c(r.choice([1, 2, -1])))
+        z = self.pick(syms)
+        w = self.arith(ty, 1)
+        shape = r.randrange(7)
+        if shape == 0:
+            t = m.Times(sm, sm)                                   # a square of a sum
+        elif shape == 1:
+            t = m.Times(z, z, sm2)                                # a repeated non-sum factor
+        elif shape == 2:
+            t = m.Times(sm2, w, sm2)
+        elif shape == 3:
+            t = m.Times(sm, sm, sm2)
+        elif shape == 4:
+            t = m.Times(m.Minus(z, w), m.Minus(z, w))             # becomes a square of a sum
+        elif shape == 5:
+            t = m.Times(m.Times(z, sm2), m.Times(z, sm2))         # nested: the same product twice
+        else:
+            t = m.Plus(m.Times(sm2, sm2), m.Times(w, w, sm))
+        k = r.random()
+        if k < 0.4:
+            return t
+        if k < 0.8:
+            return self.pick([m.LE, m.LT, m.Equals])(t, self.arith(ty, 1))
+        return m.Or(m.LT(t, c(3)), self.bool_leaf([]))
+
+    # ---- shapes for the prenex walker's memoisation: the body of a binder occurs again, free
+    def prenex_shared(self):
+        m, r = self.m, self.rng
+        vs = r.sample(self.all_binders, r.choice([1, 1, 2]))
+        body = self.boolf(r.choice([1, 2]), vs, quant=r.choice([None, None, "all"]), budget=8)
+        v = vs[0]
+        t = v.symbol_type()
+        occ = v if t.is_bool_type() else (m.Equals(v, self.int_term(vs, 0)) if t.is_int_type()
+                                          else m.BVULT(v, self.bv_term(vs)))
+        body = self.pick([m.And, m.Or])(body, occ) if r.random() < 0.8 else body
+        q = (m.ForAll if r.random() < 0.5 else m.Exists)(vs, body)
+        op2 = self.pick([m.And, m.Or, m.Implies, m.Iff])
+        shape = r.randrange(6)
+        if shape == 0:
+            return op2(q, body)
+        if shape == 1:
+            return op2(body, q)
+        if shape == 2:
+            return m.And(self.atom([]), m.Or(q, m.Not(body)))
+        if shape == 3:
+            return m.Ite(self.bool_leaf([]), q, body)
+        if shape == 4:
+            q2 = (m.ForAll if r.random() < 0.5 else m.Exists)([self.qc], m.Or(self.qc, q))
+            return op2(q2, m.And(body, self.bool_leaf([])))
+        return m.Not(op2(m.Not(q), body))
+
+    # ---- Boolean blocks with 3-4 variables whose witness / counterexample is one particular assignment
+    def qe_block(self):
+        m, r = self.m, self.rng
+        k = r.choice([3, 3, 4])
+        vs = r.sample([self.qb, self.qc, self.p, self.q, self.r], k)
+        target = [r.random() < 0.75 for _ in vs]              # mostly "true": the late assignments
+        lits = [v if b else m.Not(v) for v, b in zip(vs, target)]
+        free = self.atom([])
+        if r.random() < 0.5:
+            core = m.And(lits + [free]) if r.random() < 0.7 else m.And(m.And(lits[:2]), m.And(lits[2:] + [free]))
+            f = m.Exists(vs, core)
+        else:
+            nl = [m.Not(l) for l in lits]
+            core = m.Or(nl + [free]) if r.random() < 0.7 else m.Implies(m.And(lits), free)
+            f = m.ForAll(vs, core)
+        ctx = r.randrange(4)
+        if ctx == 0:
+            return f
+        if ctx == 1:
+            return m.Not(f)
+        if ctx == 2:
+            return m.And(f, self.atom([]))
+        return m.Iff(f, self.bool_leaf([]))
+
     # ---- top-level definitions for propagate_toplevel
     def propagate_input(self):
         m, r = self.m, self.rng
@@ -592,6 +675,17 @@ def generate(ctx, env, n_each):
         if r.random() < 0.05:
             cases.append(("shannon", f))      # usually raises: non-Boolean binders
         cases.append(("times", g.times_input()))
+        if i % 2 == 0:
+            cases.append(("times", g.times_repeated()))
+        if i % 2 == 1:
+            ps = g.prenex_shared()
+            cases.append(("prenex", ps))
+            if r.random() < 0.3:
+                cases.append(("nnf", ps))
+        if i % 3 == 0:
+            qb_ = g.qe_block()
+            cases.append(("shannon", qb_))
+            cases.append(("selfsub", qb_))
         cases.append(("propagate", g.propagate_input()))
     return cases
 
@@ -919,6 +1013,16 @@ def probes(env):
                                    m.Equals(y, m.Int(5)), m.Equals(x, y))))
     out.append(("propagate", m.And(m.Equals(s, m.String("a")), m.Equals(s, t), m.StrContains(t, s))))
     out.append(("times", m.Times(m.Plus(x, m.Int(1)), m.Minus(y, m.Int(1)), x)))
+    z = m.Symbol("z", INT)
+    out.append(("times", m.Times(m.Plus(x, m.Int(1)), m.Plus(x, m.Int(1)))))              # same factor twice
+    out.append(("times", m.Times(z, z, m.Plus(x, m.Int(1)))))
+    out.append(("prenex", m.And(m.Exists([a], m.Or(a, b)), m.Or(a, b))))                     # body occurs again
+    out.append(("prenex", m.Or(m.Or(a, b), m.ForAll([a], m.Or(a, b)))))
+    qa, qb3, qc3 = m.Symbol("qb"), m.Symbol("qc"), m.Symbol("q3")
+    out.append(("shannon", m.Exists([qa, qb3, qc3], m.And(qb3, qc3, c))))                    # witness: late assignments
+    out.append(("shannon", m.ForAll([qa, qb3, qc3], m.Or(m.Not(qa), m.Not(qb3), m.Not(qc3), c))))
+    out.append(("selfsub", m.Exists([qa, qb3, qc3], m.And(qb3, qc3, c))))
+    out.append(("selfsub", m.ForAll([qa, qb3, qc3], m.Or(m.Not(qa), m.Not(qb3), m.Not(qc3), c))))
     qb = m.Symbol("qb")
     out.append(("shannon", m.Exists([qb], m.Not(qb))))
     out.append(("selfsub", m.Not(m.Exists([qb], m.Not(qb)))))
@@ -934,7 +1038,7 @@ def run(ctx):
     ctx.extra["generated_cases"] = len(cases)
     chunk = 4000
     for i in range(0, len(cases), chunk):
-        if ctx.time_left() < 60:
+        if i > 0 and ctx.time_left() < 60:       # the first chunk always runs (a slow Lean build must not empty the run)
             ctx.extra["stopped_early_at"] = i
             break
         process(ctx, env, cases[i:i + chunk])
